@@ -168,6 +168,10 @@ def directed(rng):
         # ... for CancelRequest as well: the bare text cancels the number, the quoted text the string, never the other one
         add('cancel-string-vs-number-%d' % v, {'conc': 3}, [S(call(101)), D, dict(a='cancel', id='1'), D] + ([S(call(1)), D, hret('m2.1'), D, dict(a='cancel', id='1'), D] if v else [])
                                                            + [hret('m1.1'), D, S(call(1)), D, dict(a='cancel', id='"1"'), D, hret('m%d.1' % (3 if v else 2)), D])
+        # a member that never ran (invalid, unknown method) bears an id all the same: when its message is answered, a later call that
+        # uses that id meanwhile is not touched
+        add('unrun-id-then-reuse-%d' % v, {'conc': 3}, [S(inv(1, False, v), call(2)) if v != 1 else S(call(1, 'nf'), call(2), inv(3, False, v)), D, S(call(1)), D] + ([S(call(3)), D] if v == 1 else [])
+                                                        + [hret('m1.2'), D, hret('m2.1'), D] + ([hret('m3.1'), D] if v == 1 else []))
         # CancelRequest for one member of a batch reaches that member only (not its batch-mates, whatever their position)
         add('cancel-one-of-batch-%d' % v, {'conc': 4}, [S(call(1), call(2), note(), call(3)), D, dict(a='cancel', id=str(1 + v)), D, hret('m1.%d' % (1 + v + (1 if v == 2 else 0)), 'ctxerr'), D,
                                                         hret('m1.3'), D] + [hret('m1.%d' % i) for i in (1, 2, 4) if i != 1 + v + (1 if v == 2 else 0)] + [D])
